@@ -91,7 +91,7 @@ fn respace(s: &str, with: &str) -> String {
     s.replace(' ', with)
 }
 
-fn texts_for(file: &str, extra: &[&str]) -> Vec<String> {
+pub fn texts_for(file: &str, extra: &[&str]) -> Vec<String> {
     let mut base = test_sentences(file);
     base.extend(extra.iter().map(|s| s.to_string()));
     let mut out = BTreeSet::new();
